@@ -541,7 +541,9 @@ theorem recip_wf (n : Nat) (x P : PB) (hx : WF n x) (h : PBox.recip n x = .ok P)
   unfold PBox.recip at h
   split at h
   · cases h
-  · rename_i hz
+  split at h
+  · cases h
+  · rename_i _ hz
     simp only [Bool.or_eq_true, not_or, Bool.not_eq_true] at hz
     have nzl := hasZero_false hz.1
     have nzr := hasZero_false hz.2
